@@ -282,9 +282,32 @@ func (e *Exec) Sleep(ms int) {
 	e.Op(fmt.Sprintf("sleep %d", ms), func() { time.Sleep(time.Duration(ms) * time.Millisecond) })
 }
 
+// postCloseOps (C10): after the closing operation, go on using the closed socket and its contexts
+var postCloseOps bool
+
 // Finish closes everything and reports calls that never returned.
 func (e *Exec) Finish() {
+	t0 := time.Now()
 	e.OpSync("close", func() error { return e.proto.Close() })
+	if d := time.Since(t0); d > 3*time.Second {
+		e.c.Violate(fmt.Sprintf("%s: Close took %v", e.tag, d), e.Replay())
+	}
+	if postCloseOps && !e.broken {
+		ids := make([]int, 0, len(e.ctxs))
+		for id := range e.ctxs {
+			ids = append(ids, id)
+		}
+		sort.Ints(ids)
+		before := len(e.calls)
+		for _, id := range ids {
+			e.Send(id, nil, []byte("zz"))
+			e.Recv(id)
+		}
+		e.OpenCtx(9000)
+		e.AddPipe(9001)
+		e.OpSync("close", func() error { return e.proto.Close() })
+		_ = before
+	}
 	for id, p := range e.pipes {
 		_ = p.Close()
 		delete(e.pipes, id)
